@@ -370,3 +370,24 @@ Example ex_transient_failure_is_not_covered : exists w0 wp w2,
   wlen wp = 65 /\ rlen (wbuf wp) = 64 /\
   wf_close (Limit 1000) wp = Ok (WOk w2) /\ wdisk w2 = [65; 2; 18442242673306779649].
 Proof. do 3 eexists. repeat (match goal with |- _ /\ _ => split end); vm_compute; reflexivity. Qed.
+
+(* ================================================================ the run-length vector *)
+
+Require Import SDS.Model.RL SDS.Spec.Runs SDS.Proofs.SerRL.
+
+(* RLVector::load on EVERY strict prefix of the serialization of a built vector is an I/O error - not a
+   structure, not a panic (the rebuilt indexes are never reached: the four fields are read first) *)
+Theorem C14_truncation_rl : forall (m : mode) (R : list (N * N)) (L : N),
+  runs_sorted 0 R -> runs_end R <= L -> L <= 2 ^ 64 - 1 -> lenN R < 2 ^ 55 ->
+  exists v,
+    rl_build m (map (fun r => BTrySet (fst r) (snd r)) R ++ [BSetLen L]) = Ok (v, map (fun _ => true) R ++ [true]) /\
+    forall k, (k < length (c_enc (rl_codec m) v))%nat -> exists e, c_dec (rl_codec m) (firstn k (c_enc (rl_codec m) v)) = IoErr e.
+Proof.
+  intros m R L Hs He HL Hn. destruct (rl_built_wf m R L Hs He HL Hn) as (v & Hb & Hwf).
+  exists v. split; [exact Hb|]. exact (ok_truncation _ v (rl_codec_ok m) Hwf).
+Qed.
+Print Assumptions C14_truncation_rl.
+
+Theorem C14_truncation_rl_wf : forall m v, c_wf (rl_codec m) v -> truncation_safe (rl_codec m) v.
+Proof. intros m v H. exact (ok_truncation _ v (rl_codec_ok m) H). Qed.
+Print Assumptions C14_truncation_rl_wf.
